@@ -370,12 +370,14 @@ def reclaim_obs(prefix):
                          ("attempt_reclaim", ["_mi_segment_attempt_reclaim"]))]
 
 
-def span_obs(prefix, which=("span_alloc", "span_free")):
+def span_obs(prefix, which=("span_alloc", "span_free", "span_free_both")):
     tab = {"span_alloc": ["mi_segments_page_find_and_allocate", "mi_segment_span_allocate", "mi_segment_slice_split", "mi_segment_span_free", "mi_segment_span_free_coalesce", "mi_segment_ensure_committed", "mi_segment_commit", "mi_span_queue_push", "mi_span_queue_delete", "mi_span_queue_for", "mi_slice_bin"],
            "span_free": ["mi_segment_page_clear", "mi_segment_span_free_coalesce", "mi_segment_span_free", "mi_segment_span_remove_from_queue", "mi_slice_first"]}
-    var = {"span_alloc": [("want%d" % n, "WANT=%d" % n) for n in (1, 2, 3, 4)], "span_free": [("left", "FREEA=1"), ("right", "FREEA=0")]}
+    var = {"span_alloc": [("want%d" % n, "WANT=%d" % n) for n in (1, 2, 3, 4)], "span_free": [("left", "FREEA=1"), ("right", "FREEA=0")],
+           "span_free_both": [("owned", "OWNED=1"), ("abandoned", "OWNED=0")]}
+    tab["span_free_both"] = tab["span_free"]
     return [sg_ob("%s.%s.%s" % (prefix, w, nm), "h_" + w, defines=[d], unwind=40, unwindset=["stub_memzero_bytes.0:130"], std_checks=False, cost=60, cbmc_flags=["--max-field-sensitivity-array-size", "520"],
-                  replace=dict({"_mi_ptr_segment": "stub_ptr_segment2"}, **({"_mi_memzero": "stub_memzero_bytes"} if w == "span_free" else {})), funcs=tab[w],
+                  replace=dict({"_mi_ptr_segment": "stub_ptr_segment2"}, **({"_mi_memzero": "stub_memzero_bytes"} if w != "span_alloc" else {})), funcs=tab[w],
                   bounds="segment of 8 slices: info | used page (2) | free span (4) | used page (1); request of 1..4 slices; commit state, OS answers, page fields symbolic") for w in which for (nm, d) in var[w]]
 
 
@@ -400,6 +402,15 @@ def seg_reclaim_full_obs(prefix):
                   funcs=["mi_segment_reclaim", "mi_segment_page_clear", "mi_segment_span_free_coalesce", "mi_segment_span_free", "mi_segment_free", "mi_segment_os_free", "mi_segments_track_size", "mi_slices_start_iterate"],
                   bounds="abandoned segment of 8 slices: info | page A (2) | free span (4) | page B (1); each page with live blocks or all free; purging disabled")
             for a in (0, 1) for b in (0, 1)]
+
+
+def check_free_obs(prefix):
+    return [sg_ob("%s.check_free.a%db%d.need%d" % (prefix, a, b, need), "h_check_free", defines=["AUSED=%d" % a, "BUSED=%d" % b, "NEED=%d" % need],
+                  unwind=40, unwindset=SEG_UNWINDSET, std_checks=False, cost=40, cbmc_flags=["--max-field-sensitivity-array-size", "520"],
+                  replace={"_mi_ptr_segment": "stub_ptr_segment2", "_mi_memzero": "stub_memzero_bytes"},
+                  funcs=["mi_segment_check_free", "mi_segment_page_clear", "mi_segment_span_free_coalesce", "mi_slices_start_iterate", "mi_page_has_any_available"],
+                  bounds="abandoned 8-slice layout; page states A=%d B=%d (0 all free, 1 live with a free block, 2 live and full); %d slices needed; any block size" % (a, b, need))
+            for (a, b, need) in ((1, 2, 5), (0, 1, 5), (2, 0, 5), (0, 0, 7), (1, 1, 1), (2, 2, 5))]
 
 
 def segment_reclaim_ob(prefix):
@@ -721,6 +732,22 @@ def force_abandon_obs(prefix):
             for af, k in ((0b001, 0), (0b111, 1), (0b010, 1))]
 
 
+def heap_destroy_obs(prefix):
+    us = ["mi_heap_queue_first_update.1:140", "mi_heap_queue_first_update.0:6", "_mi_memcpy_aligned.0:4", "mi_heap_visit_pages.0:8", "mi_heap_visit_pages.1:77", "mi_heap_free.0:5", "_mi_page_use_delayed_free.0:4"]
+    return [q_ob(prefix + ".heap_destroy.a%d_b%d" % (af, bh), "h_heap_destroy", defines=["AFULL=%d" % af, "BHAS=%d" % bh], cost=40, unwindset=us, std_checks=False,
+                 replace={"mi_heap_delete": "stub_heap_delete"},
+                 funcs=["mi_heap_destroy", "_mi_heap_destroy_pages", "mi_heap_visit_pages", "_mi_heap_page_destroy", "mi_heap_reset_pages", "mi_heap_free", "_mi_page_use_delayed_free", "_mi_heap_set_default_direct"],
+                 bounds="3 pages (64-byte class) of the destroyed heap, full-queue mask %s; backing heap pages mask %s; destroyable or not; default or not; two positions in the heap list" % (bin(af), bin(bh)))
+            for af, bh in ((0b000, 0), (0b101, 3), (0b111, 1))] + [
+        q_ob(prefix + ".heap_delete", "h_heap_delete", defines=["AFULL=2", "BHAS=1"], cost=10, unwindset=us, std_checks=False,
+             replace={"mi_heap_absorb": "stub_heap_absorb", "_mi_heap_collect_abandon": "stub_collect_abandon"},
+             funcs=["mi_heap_delete", "mi_heaps_are_compatible", "mi_heap_free", "_mi_heap_set_default_direct"],
+             bounds="deleted heap and backing heap with any tags / arena ids; deleting the backing heap itself; default or not"),
+        q_ob(prefix + ".check_owned", "h_check_owned", defines=["AFULL=2", "BHAS=3"], cost=30, unwindset=us, std_checks=False,
+             funcs=["mi_heap_check_owned", "mi_heap_page_check_owned", "mi_heap_visit_pages", "mi_page_start"],
+             bounds="3+2 pages of two heaps with disjoint areas, any address inside one of them")]
+
+
 def heap_by_tag_ob(prefix):
     return q_ob(prefix + ".heap_by_tag", "h_heap_by_tag", cost=5, funcs=["_mi_heap_by_tag"], bounds="3 heaps of a thread with symbolic tags / no_reclaim flags (backing heap last), any starting heap and tag")
 
@@ -739,13 +766,13 @@ def collect_abandon_ob(prefix):
 
 
 def c10():
-    return queue_obs("C10") + [heap_by_tag_ob("C10"), heap_new_ob("C10")]
+    return queue_obs("C10") + [heap_by_tag_ob("C10"), heap_new_ob("C10")] + heap_destroy_obs("C10")
 
 
 PROPS["C10"] = dict(
     obligations=c10,
     bounds="two heaps, 3+2 pages of one size class (64 bytes) distributed over size queue and full queue; delayed-free flags USE/NO",
-    outside="mi_heap_destroy (segment page free), interleavings of mi_heap_delete with remote frees (the delayed-freeing hand-shake is a rely/guarantee obligation not built), heaps with different tags/arenas (abandon path)",
+    outside="interleavings of mi_heap_delete / mi_heap_destroy with remote frees (only the flag protocol of each migrated/destroyed page is asserted: the delayed-freeing hand-shake itself is the C02 rely/guarantee lemma); release of a destroyed page inside the segment layer is C01.page_free_full; heaps with different tags/arenas (abandon path); mi_heap_contains_block's pointer arithmetic is C16",
     assumptions=QUEUE_STUBS,
     trusted=["queue_layer.c"],
 )
@@ -845,7 +872,7 @@ def c09():
     obs.append(heap_by_tag_ob("C09"))
     obs.append(collect_abandon_ob("C09"))
     obs.append(segment_reclaim_ob("C09"))
-    obs += seg_reclaim_full_obs("C09")
+    obs += seg_reclaim_full_obs("C09") + check_free_obs("C09")
     obs += [o for o in page_free_full_obs("C09") if o["id"].endswith(".abandoned")]
     return obs
 
